@@ -157,7 +157,9 @@ func genC05(g *Gen) {
 			continue
 		}
 		// all-columns distinct on the frame without row numbers, then keyed distinct with them
-		g.do(Step{Op: "Distinct", Recv: f, Null: g.rng.Intn(2) == 0})
+		if s.n <= 140 {
+			g.do(Step{Op: "Distinct", Recv: f, Null: g.rng.Intn(2) == 0})
+		}
 		f = g.do(Step{Op: "WithRowNums", Recv: f, Dst: rid})
 		for k := 0; k < 3; k++ {
 			keys := g.subset(s.names, 3)
